@@ -1080,6 +1080,8 @@ class RejectDriver:
             if desc.get("inplace"):
                 league.teams_of(names)  # refresh the roster lists in place
                 teams = accepted
+                # the structure was accepted by the call immediately before the corrupted one
+                call_outcome(lambda: do_predict(league.model, ("win", "draw", "rank")[len(desc.get("pos", [])) % 3], accepted))
                 saved = (list(teams), [list(x) for x in teams])
                 ctx.count("inplace_faults")
             else:
@@ -1127,6 +1129,42 @@ class RejectDriver:
                 ctx.evaluations += 1
                 if st != "ok":
                     ctx.violation("C13/rejected_wellformed:predict_%s" % kind, {"teams": names, "exception": type(val).__name__, "message": str(val)[:200]})
+            self.repeated_objects(names)
+
+    def repeated_objects(self, names):
+        """Games in which the SAME rating object (or the same team list) appears twice.  The
+        property's definition of malformed does not mention them, so they are well-formed by
+        its letter and the pinned code accepts them; a maintainer might nevertheless decide to
+        refuse them.  Demanded here is only what the property says unambiguously: the call is
+        either accepted or refused with TypeError/ValueError - and if it is refused, nothing
+        has been modified."""
+        ctx = self.ctx
+        league = self.league
+        for variant in ("same_player_in_two_teams", "same_player_twice_in_team", "same_team_list_twice"):
+            for call in ("rate", "win", "draw", "rank"):
+                base = [[mk_rating(league.model, p.mu, p.sigma, p.name) for p in t] for t in league.teams_of(names)]
+                if variant == "same_player_in_two_teams":
+                    base[-1] = base[-1] + [base[0][0]]
+                elif variant == "same_player_twice_in_team":
+                    base[0] = base[0] + [base[0][0]]
+                else:
+                    base = base + [base[0]]
+                objs = reachable_ratings(base)
+                pre_r = rating_digest(objs)
+                pre_m = model_state(league.model)
+                st, val = call_outcome(lambda: faults.invoke(league.model, call, [base], {}))
+                ctx.evaluations += 1
+                ctx.count("repeated_object_probe")
+                if st == "ok":
+                    continue
+                label = "%s:%s" % (call, variant)
+                if not isinstance(val, (TypeError, ValueError)):
+                    ctx.violation("C13/wrong_exception:%s:%s" % (label, type(val).__name__), {"teams": names, "message": str(val)[:200]})
+                if pre_r != rating_digest(objs):
+                    ctx.violation("C13/side_effect:%s:rating" % label, {"teams": names, "exception": type(val).__name__})
+                d = diff_state(pre_m, model_state(league.model))
+                if d:
+                    ctx.violation("C13/side_effect:%s:model.%s" % (label, ",".join(d)), {"teams": names, "exception": type(val).__name__})
 
 
 # ====================================================================== C20 driver
